@@ -23,7 +23,10 @@ def stage_monitor(ctx):
     rng = ctx.rng
     n = 40 if not ctx.deep else 600
     for trial in range(n):
-        objs = [('ET', ) + IM.make_et(goodwe, IM.ET_SERIALS['745 HV'], 15000, (), 2, seed=rng.randrange(1 << 30)),
+        # every model family and rated power in turn (the sensor table is adapted to both in read_device_info)
+        et_serial = list(IM.ET_SERIALS.values())[trial % len(IM.ET_SERIALS)] if trial % 3 else IM.ET_SERIALS['745 HV']
+        et_rated = [15000, 5000, 10000, 25000, 29900, 50000][(trial // 2) % 6]
+        objs = [('ET', ) + IM.make_et(goodwe, et_serial, et_rated, (), 2, seed=rng.randrange(1 << 30)),
                 ('DT', ) + IM.make_dt(goodwe, IM.DT_SERIALS['three-phase' if trial % 2 else 'single-phase 3-MPPT'], False, seed=rng.randrange(1 << 30)),
                 ('ES', ) + IM.make_es(goodwe, IM.ES_SERIALS['ESU'], '2314E', seed=rng.randrange(1 << 30))]
         for fam, inv, sim in objs:
@@ -31,6 +34,7 @@ def stage_monitor(ctx):
             # interesting contents for the code words
             if fam == 'ET':
                 for a in (35189, 35190, 35220, 35221, 37006, 37012, 37010, 37013): sim.set(a, rng.choice([0, 1, 0x8000, 0xFFFF, rng.randrange(65536)]))
+                sim.set(35139, rng.choice([0, 0xFFFF, 1, 0x8000, rng.randrange(65536)]))      # the (reserved) word before active_power
                 for a in (35140, 35182, 35183, 35105, 35106): sim.set(a, rng.choice([0, 1, 0x8000, 0xFFFF, 0xFA24, rng.randrange(65536)]))
             if fam == 'DT':
                 for a in (30165, 30166): sim.set(a, rng.choice([0, 1, 0x8000, 0xFFFF, rng.randrange(65536)]))
@@ -40,6 +44,7 @@ def stage_monitor(ctx):
                 sim.runtime[89:93] = bytes(rng.choice([0, 0x80, 0xFF, rng.randrange(256)]) for _ in range(4))
             data = asyncio.run(inv.read_runtime_data())
             cfg = dict(family=fam, seed=sim.salt, trial=trial)
+            if fam == 'ET': cfg.update(serial=et_serial, rated_power=et_rated)
             st.case((fam, trial), sample=dict(config=cfg) if len(st.samples) < 2 else None)
 
             def bad(key, msg): st.violation(key, f'{fam}: {msg}', dict(config=cfg, registers={str(a): w for a, w in sim.regs.items() if a > 35099}, runtime=bytes(sim.runtime).hex() if fam == 'ES' else None))
@@ -62,8 +67,16 @@ def stage_monitor(ctx):
                         if data.get(sid) != want: bad('bitmap22-precedence', f'{sid} = {data.get(sid)!r} but high word {hi:#x} / low word {lo:#x} have the set bits {want!r}')
             if fam == 'ET':
                 z = lambda v: v if v is not None else 0      # noqa
-                if data['ppv'] != sum(max(0, z(data.get(f'ppv{i}'))) for i in (1, 2, 3, 4)): bad('derived', f"ppv = {data['ppv']} but ppv1..4 = {[data.get(f'ppv{i}') for i in (1, 2, 3, 4)]}")
-                hc = sum(z(data.get(f'ppv{i}')) for i in (1, 2, 3, 4)) + data['pbattery1'] - data['active_power']
+                def part(i):
+                    # ppvN of this result; a model that does not list ppv3 / ppv4 still sums their registers (the definition is over the raw values of
+                    # the same response): then the raw 32-bit word, undefined (0xFFFFFFFF) counting as 0
+                    if f'ppv{i}' in data: return z(data[f'ppv{i}'])
+                    a = 35105 + 4 * (i - 1)
+                    w = (sim.word(a) << 16) | sim.word(a + 1)
+                    return 0 if w == 0xFFFFFFFF else w
+                parts = [part(i) for i in (1, 2, 3, 4)]
+                if data['ppv'] != sum(max(0, x) for x in parts): bad('derived', f"ppv = {data['ppv']} but ppv1..4 = {[data.get(f'ppv{i}') for i in (1, 2, 3, 4)]} (registers: {parts})")
+                hc = sum(parts) + data['pbattery1'] - data['active_power']
                 if data['house_consumption'] != hc: bad('derived', f"house_consumption = {data['house_consumption']}, definition gives {hc}")
                 g = 2 if data['active_power'] < -90 else 1 if data['active_power'] >= 90 else 0
                 if data['grid_in_out'] != g: bad('derived', f"grid_in_out = {data['grid_in_out']} for active_power {data['active_power']}")
